@@ -352,6 +352,11 @@ impl<H: Host> ZXController<H> {
         self.current_port_7ffd
     }
 
+    #[cfg(feature = "verif")]
+    pub(crate) fn verif_paging_enabled(&self) -> bool {
+        self.paging_enabled
+    }
+
     #[cfg(all(feature = "sound", feature = "ay"))]
     fn read_ay_port(&mut self) -> u8 {
         self.mixer.ay.read()
